@@ -169,16 +169,19 @@ pub fn generate(rng: &mut Rng, features: &[&str]) -> SvModule {
 
     // ---- header features
     if has("param_typed_unsigned") {
+        hdr_params.retain(|p| !p.ends_with("W = 8")); // the three W-parameter features exclude each other: the last one wins
         hdr_params.push("parameter int unsigned W = 8".into());
         a_ty = "logic [W-1:0]".into();
         y1_terms.push("(a + W)".into());
     }
     if has("param_typed_int") {
+        hdr_params.retain(|p| !p.ends_with("W = 8")); // the three W-parameter features exclude each other: the last one wins
         hdr_params.push("parameter int W = 8".into());
         a_ty = "logic [W-1:0]".into();
         y1_terms.push("(a + W)".into());
     }
     if has("param_implicit") {
+        hdr_params.retain(|p| !p.ends_with("W = 8")); // the three W-parameter features exclude each other: the last one wins
         hdr_params.push("parameter W = 8".into());
         a_ty = "logic [W-1:0]".into();
         y1_terms.push("(a + W)".into());
@@ -530,7 +533,7 @@ pub fn generate(rng: &mut Rng, features: &[&str]) -> SvModule {
             sign_uses += 4;
             continue;
         }
-        let x = if site == "port" { fresh("u") } else { fresh("x") };
+        let x = if site == "port" { fresh("up") } else { fresh("x") };
         match site {
             "port" => {
                 extra_ports.push_str(&format!("    input  {tytext} {x},\n"));
